@@ -191,10 +191,19 @@ func setExtras(v reflect.Value, variant int) {
 	}
 }
 
-func compare(c *runner.Ctx, src interface{}, desc string, nt *bool) {
+func compare(c *runner.Ctx, src interface{}, desc string, nt *bool, outer ...map[string]string) {
 	var err error
-	pan, msg, site := runner.Guard(func() { err = valid.Struct(src) })
-	exp := walk.Struct(src, walk.Opts{})
+	o := walk.Opts{}
+	pan, msg, site := runner.Guard(func() {
+		if len(outer) > 0 && outer[0] != nil {
+			// rules given per call without a target type belong to the outermost object only
+			o.Unscoped = outer[0]
+			err = valid.Struct(src, valid.RM(outer[0]))
+		} else {
+			err = valid.Struct(src)
+		}
+	})
+	exp := walk.Struct(src, o)
 	det := func() map[string]interface{} {
 		a := "<nil>"
 		if err != nil {
@@ -499,7 +508,7 @@ func run(c *runner.Ctx) {
 		if !c.Take() {
 			continue
 		}
-		compare(c, cs.v, fmt.Sprintf("named#%d %s", i, cs.desc), &nt)
+		compare(c, cs.v, fmt.Sprintf("named#%d %s", i, cs.desc), &nt, cs.outer)
 	}
 }
 
@@ -584,8 +593,9 @@ func chain(depth int, via string) *Chain {
 }
 
 type namedCase struct {
-	v    interface{}
-	desc string
+	v     interface{}
+	desc  string
+	outer map[string]string // per-call rules for the outermost object (nil = none)
 }
 
 func namedCases() []namedCase {
@@ -596,8 +606,8 @@ func namedCases() []namedCase {
 	now := time.Now()
 	var out []namedCase
 	add := func(desc string, p Parent) {
-		out = append(out, namedCase{p, "Parent " + desc}, namedCase{&p, "*Parent " + desc}, namedCase{[]Parent{p, {}}, "[]Parent " + desc},
-			namedCase{[]*Parent{nil, &p}, "[]*Parent " + desc}, namedCase{map[string]*Parent{"x": &p}, "map[string]*Parent " + desc}, namedCase{[1]Parent{p}, "[1]Parent " + desc})
+		out = append(out, namedCase{v: p, desc: "Parent " + desc}, namedCase{v: &p, desc: "*Parent " + desc}, namedCase{v: []Parent{p, {}}, desc: "[]Parent " + desc},
+			namedCase{v: []*Parent{nil, &p}, desc: "[]*Parent " + desc}, namedCase{v: map[string]*Parent{"x": &p}, desc: "map[string]*Parent " + desc}, namedCase{v: [1]Parent{p}, desc: "[1]Parent " + desc})
 	}
 	add("zero", Parent{})
 	add("ok", Parent{Name: "n", M: okMid, AM: [2]*Mid{&okMid, nil}, MM: map[string]*Mid{"a": &okMid}, Embedded: Embedded{"e"}, When: now})
@@ -607,7 +617,13 @@ func namedCases() []namedCase {
 	add("slices", Parent{Name: "n", M: okMid, SM: []Mid{emptyMid, emptyMid}, AM: [2]*Mid{&emptyMid, &okMid}, MM: map[string]*Mid{"z": &emptyMid}, Embedded: Embedded{"e"}})
 	for _, via := range []string{"next", "kids", "map", "mixed"} {
 		for _, d := range []int{1, 4, 31, 32, 33, 64, 200} {
-			out = append(out, namedCase{chain(d, via), fmt.Sprintf("*Chain depth %d via %s", d, via)}, namedCase{[]*Chain{chain(d, via), nil, chain(2, via)}, fmt.Sprintf("[]*Chain depth %d via %s", d, via)})
+			out = append(out, namedCase{v: chain(d, via), desc: fmt.Sprintf("*Chain depth %d via %s", d, via)}, namedCase{v: []*Chain{chain(d, via), nil, chain(2, via)}, desc: fmt.Sprintf("[]*Chain depth %d via %s", d, via)})
+			if d <= 33 {
+				// the outermost node alone gets a per-call mark on Skip (and a per-call message on V): the nodes below
+				// it have the same type and keep their own marks
+				out = append(out, namedCase{chain(d, via), fmt.Sprintf("*Chain depth %d via %s, per-call Skip=exist on the outermost node", d, via), map[string]string{"Skip": "exist"}},
+					namedCase{chain(d, via), fmt.Sprintf("*Chain depth %d via %s, per-call Skip=required, Next unmarked, on the outermost node", d, via), map[string]string{"Skip": "required", "Next": "le=3"}})
+			}
 		}
 	}
 	// wide structs: marked fields at every index up to 130 (nothing about a field depends on its position)
@@ -643,7 +659,7 @@ func namedCases() []namedCase {
 				w.Field(i).Set(m)
 			}
 		}
-		out = append(out, namedCase{w.Addr().Interface(), fmt.Sprintf("struct with %d fields, marked sub-objects at every fifth index", n)})
+		out = append(out, namedCase{v: w.Addr().Interface(), desc: fmt.Sprintf("struct with %d fields, marked sub-objects at every fifth index", n)})
 	}
 	add("unmarked only", Parent{Name: "n", M: okMid, UM: &badMid, AM: [2]*Mid{&okMid, &okMid}, MM: map[string]*Mid{"a": &okMid}, Embedded: Embedded{"e"}})
 	return out
